@@ -31,8 +31,8 @@ def run(chk, ix, tier):
     run_parallel(chk, [
         (T.t_run_hook, (("H1", "H5", "V6"),)),
         (T.t_step, (("H3",),)),
-        (T.t_scenario, (("H2", "V2"),)),
-        (T.t_run_model, (("H4", "STM", "V6"),)),
+        (T.t_scenario, (("H2", "V2", "R4"),)),
+        (T.t_run_model, (("H4", "STM", "V6", "V4"),)),
         (t_skip, ()),
     ] + T.container_tasks(("H2", "ST", "V3")))
     for r, n in (("H1", 10), ("H2", 3), ("H3", 8), ("H4", 1), ("H5", 10), ("H6", 2)):
